@@ -110,6 +110,7 @@ Fixpoint const_on (g : string) (data : list string) (S : list dnode) (acc : list
         | KGroupAgg _ => match level_of_name (d_name n) with Some g' => finer_eq g g' | None => false end
         | KGrouping => match level_of_name (d_name n) with Some g' => finer_eq g g' | None => false end
         | KPidAgg _ => false
+        | KJoin _ _ _ _ _ => false
         end in
       if ok then const_on g data r (d_name n :: acc) else const_on g data r acc
   end.
